@@ -267,6 +267,12 @@ func (r *revocationJob) OnFailure(err error) {
 		le, loadErr := r.m.loadEntry(r.nsCtx, r.leaseID)
 		if loadErr != nil {
 			r.m.logger.Warn("failed to mark lease as irrevocable - failed to load", "lease_id", r.leaseID, "err", loadErr)
+			// The lease's timer has already fired; re-arm it so the lease is
+			// not left in the pending map without any further attempt.
+			pending.timer.Reset(newTimer)
+			r.m.pendingLock.Lock()
+			r.m.pending.Store(r.leaseID, pending)
+			r.m.pendingLock.Unlock()
 			return
 		}
 		if le == nil {
